@@ -7,7 +7,7 @@
    Hangs (goroutine / pipe deadlocks) live in the runtime and cannot be
    exhibited by the model: every run of the check has a timeout instead. *)
 From Coq Require Import String.
-From GS Require Import GoSem Text Options Protocol ProtocolProofs CmdsBridge.
+From GS Require Import GoSem Text Options Protocol ProtocolProofs CmdsBridge Counts Deferred Repo Scan ScanFaults ScanEvents.
 From GSGen Require Import CmdsGen.
 Open Scope N_scope.
 
@@ -31,3 +31,63 @@ Print Assumptions C10_fault_fails.
 Theorem C10_commands_are_the_protocol : covers = true.
 Proof. exact commands_are_the_protocol. Qed.
 Print Assumptions C10_commands_are_the_protocol.
+
+(* ---- the scan itself (ScanFaults.v): no assumption on the object listing, which a faulty `git rev-list` may truncate,
+   reorder or pad while still exiting 0 ---- *)
+
+(* "a required object is missing -> non-zero status": an enumerated object that does not exist ends the scan with the error
+   E_MISSING — not with a report, not with a panic *)
+Theorem C10_missing_object_is_an_error : forall r enum roots names o,
+  In o enum -> lookup r o = None -> scan r enum roots names = SErr E_MISSING.
+Proof. exact missing_object_is_an_error. Qed.
+Print Assumptions C10_missing_object_is_an_error.
+
+Theorem C10_report_needs_every_object : forall r enum roots names evs,
+  scan r enum roots names = SOk evs -> Forall (fun o => lookup r o <> None) enum.
+Proof. exact report_needs_every_object. Qed.
+Print Assumptions C10_report_needs_every_object.
+
+(* a listing that lost a commit but kept its child never yields a report ("commit is not available") *)
+Theorem C10_report_needs_every_parent : forall r enum roots names evs,
+  scan r enum roots names = SOk evs ->
+  forall c s t ps, In c enum -> lookup r c = Some (Commit s t ps) -> forall p, In p ps -> In p enum /\ is_commit r p.
+Proof. exact report_needs_every_parent. Qed.
+Print Assumptions C10_report_needs_every_parent.
+
+(* a listing that lost a blob but kept a tree naming it never yields a report ("blob size not known") *)
+Theorem C10_report_needs_every_blob : forall r enum roots names evs,
+  scan r enum roots names = SOk evs ->
+  forall t sz es, In t enum -> lookup r t = Some (Tree sz es) ->
+  forall e, In e es -> entry_kind (e_mode e) = EkBlob -> In (e_oid e) enum /\ is_blob r (e_oid e).
+Proof. exact report_needs_every_blob. Qed.
+Print Assumptions C10_report_needs_every_blob.
+
+(* a listing that lost a sub-tree but kept its parent never yields a report ("tree records remain"): every sub-directory entry
+   of every enumerated tree — provided the repository holds that object at all — was enumerated, as a tree *)
+Theorem C10_report_needs_every_subtree : forall r enum roots names evs,
+  scan r enum roots names = SOk evs ->
+  forall t sz es, In t enum -> lookup r t = Some (Tree sz es) ->
+  forall e, In e es -> entry_kind (e_mode e) = EkTree -> lookup r (e_oid e) <> None ->
+  In (e_oid e) enum /\ is_tree r (e_oid e).
+Proof. exact report_needs_every_subtree. Qed.
+Print Assumptions C10_report_needs_every_subtree.
+
+(* and the target of every enumerated tag of a tag was enumerated, as a tag *)
+Theorem C10_report_needs_every_tag_target : forall r enum roots names evs,
+  scan r enum roots names = SOk evs ->
+  forall g sz tgt, In g enum -> lookup r g = Some (Tag sz tgt KTag) -> lookup r tgt <> None ->
+  In tgt enum /\ is_tag r tgt.
+Proof. exact report_needs_every_tag_target. Qed.
+Print Assumptions C10_report_needs_every_tag_target.
+
+(* non-vacuity on the example repository of ScanEvents.v: the full listing gives a report; the listing without the blob, the listing
+   without the middle tree, and the listing naming an object that does not exist, do not *)
+Example C10_scan_example :
+  (exists evs, scan ex_repo [5; 4; 3; 2; 1] ex_roots true = SOk evs) /\
+  (forall evs, scan ex_repo [5; 4; 3; 2] ex_roots true <> SOk evs) /\
+  (forall evs, scan ex_repo [5; 4; 2; 1] ex_roots true <> SOk evs) /\
+  scan ex_repo [5; 4; 3; 2; 1; 77] ex_roots true = SErr E_MISSING.
+Proof.
+  split; [eexists; vm_compute; reflexivity|]. split; [intros evs H; vm_compute in H; discriminate|].
+  split; [intros evs H; vm_compute in H; discriminate|vm_compute; reflexivity].
+Qed.
